@@ -73,3 +73,19 @@ e1("C05", "Translation validation of soft-constraint handling: for each enumerat
           "enforced softs, (4) the enforced set gives the same solution space as the exact greedy-by-priority reference where the property fixes "
           "the order, and (5) on the returned values no violated soft could have been honoured.",
    "translation validation + solver-trace analysis: z3 equivalence of soft nodes and of the enforced set with a greedy-by-priority reference", "DESIGN.md section 6 C05")
+
+e1("C06", "Translation validation over call sequences and instance populations: randomize / randomize_with with inline sets and dynamic-constraint "
+          "references (alone, under & | ~, under if/implies, through list elements), with 1..3 live instances of the class created before/after the "
+          "target whose field values falsify the dynamic blocks. For every call z3 proves, for all random-field values of the TARGET, equivalence of "
+          "the asserted formula with class blocks AND this call's inline set AND the referenced dynamic blocks over the target's variables; the call "
+          "after a randomize_with must be equivalent to the class blocks alone; failing inline calls leave no rewrite behind.",
+   "translation validation per call: z3 equivalence with the reference over the target instance's variables", "DESIGN.md section 6 C06")
+e1("C07", "Translation validation over toggle histories: class hierarchies with overridden block names (3 levels), constraint_mode toggles "
+          "interleaved with calls, co-existing instances (top-level, nested rand_attr, list elements, created before and after toggles). For every "
+          "call z3 proves equivalence of the asserted formula with exactly the most-derived-by-name blocks whose flag is on for that instance.",
+   "translation validation per call of a toggle history: z3 equivalence with the reference block set", "DESIGN.md section 6 C07")
+e1("C08", "Translation validation on object trees: depth 3, two sub-objects of one class, lists of objects, random and non-random sub-objects, "
+          "cross-level constraints from the parent, from foreach over object lists, via list subscripts, unique/in over nested fields and inline; the "
+          "reference names variables by attribute path and the mirror's variables are renamed through the model-field->path map, so aliasing between "
+          "structurally identical sub-objects breaks the equivalence z3 decides; sub-object blocks are present iff the sub-object is random in the call.",
+   "translation validation: z3 equivalence with path-named reference variables", "DESIGN.md section 6 C08")
